@@ -684,6 +684,85 @@ def grad_vs_jax(case, ctx):
 
 
 # ----------------------------------------------------------------------------
+def gradflag_case():
+  return st.fixed_dictionaries({
+      'flag': st.sampled_from(['holomorphic', 'allow_int', 'none']),
+      'vag': st.booleans(), 'has_aux': st.booleans(),
+      'd': st.integers(1, 3), 'seed': st.integers(0, 2**16)})
+
+
+class _FlagMod(nnx.Module):
+  def __init__(self, w, k, c):
+    self.w = nnx.Param(w)
+    self.k = nnx.Param(k)
+    self.calls = nnx.Variable(c)
+
+
+@clause('grad_flags', strategy=gradflag_case, quick=200, thorough=5000,
+        quick_shards=8, thorough_shards=16, shrink=False,
+        rule='nnx.grad / nnx.value_and_grad (direct and decorator spelling) '
+        'with holomorphic=True (complex Params, holomorphic loss), '
+        'allow_int=True (an integer Param among the selected ones) or '
+        'neither x has_aux: value and gradients (incl. dtypes: float0 for the '
+        'integer Param) equal jax.value_and_grad with the same flags of the '
+        'loss written over the Param values; the forward side effect is '
+        'applied once; non-trivial = exactly one flag set')
+def grad_flags(case, ctx):
+  d, flag = case['d'], case['flag']
+  rng = np.random.default_rng(case['seed'])
+  holo = flag in ('holomorphic', 'both')
+  aint = flag in ('allow_int', 'both')
+  wdt = jnp.complex64 if holo else jnp.float32
+  w = jnp.asarray(rng.normal(size=(d,)) + (1j * rng.normal(size=(d,))
+                                            if holo else 0.0), wdt)
+  if aint:
+    k = jnp.asarray(rng.integers(1, 4, size=(d,)), jnp.int32)
+  else:
+    k = jnp.asarray(rng.normal(size=(d,)), wdt)
+  x = jnp.asarray(rng.normal(size=(d,)), wdt)
+
+  def pure(vals, xx):
+    kk = vals['k'].astype(wdt)
+    y = jnp.sum(vals['w'] * vals['w'] * xx * kk)
+    return y if holo else y * 1.0
+
+  def loss(m, xx):
+    m.calls.value = m.calls.value + 1
+    l = pure({'w': m.w.value, 'k': m.k.value}, xx)
+    return (l, {'aux': xx * 2}) if case['has_aux'] else l
+  kw = dict(holomorphic=holo, allow_int=aint)
+  lref, gref = jax.value_and_grad(pure, **kw)({'w': w, 'k': k}, x)
+  m = _FlagMod(w, k, jnp.zeros((), jnp.int32))
+  tr = nnx.value_and_grad if case['vag'] else nnx.grad
+  with sut('nnx grad with holomorphic / allow_int'):
+    gf = wrap(tr, loss, case['seed'], has_aux=case['has_aux'], **kw)
+    out = gf(m, x)
+  if case['vag']:
+    val, grads = out
+    lval = val[0] if case['has_aux'] else val
+    require(close(lval, lref) and jnp.asarray(lval).dtype == lref.dtype,
+            lambda: f'value {lval} differs from jax.value_and_grad {lref}')
+  else:
+    grads = out[0] if case['has_aux'] else out
+  flat = {p[-1]: v for p, v in statelib.to_flat_state(grads)}
+  require(set(flat) == {'w', 'k'}, lambda: f'gradient holds {sorted(flat)}')
+  for name in ('w', 'k'):
+    gv = flat[name].value if hasattr(flat[name], 'value') else flat[name]
+    require(np.asarray(gv).dtype == np.asarray(gref[name]).dtype, lambda:
+            f'gradient of {name} has dtype {np.asarray(gv).dtype}, jax gives '
+            f'{np.asarray(gref[name]).dtype}')
+    if np.asarray(gv).dtype != jax.dtypes.float0:
+      require(np.allclose(np.asarray(gv), np.asarray(gref[name]), rtol=1e-5,
+                          atol=1e-6), lambda: f'gradient of {name}: {gv} vs '
+              f'jax {gref[name]} (flags {kw})')
+  require(int(m.calls.value) == 1, lambda: 'forward side effect applied '
+          f'{int(m.calls.value)} times')
+  ctx.note(labels=[flag, 'vag' if case['vag'] else 'grad',
+                   'aux' if case['has_aux'] else 'noaux'],
+           nontrivial=flag in ('holomorphic', 'allow_int'))
+
+
+# ----------------------------------------------------------------------------
 @clause('inconsistent_aliasing',
         strategy=lambda: st.tuples(st.integers(1, 3), st.integers(2, 3),
                                    st.sampled_from([(0, None), (0, 1),
